@@ -245,6 +245,8 @@ type Program struct {
 	Name  string
 	Main  string
 	Files []*File
+	// ImportDirs: directories searched after "" (the documented order) when an import is resolved
+	ImportDirs []string
 }
 
 // Sources returns path -> text.
